@@ -360,6 +360,8 @@ func endsInReturn(stmts []ast.Stmt) bool {
 	switch x := stmts[len(stmts)-1].(type) {
 	case *ast.ReturnStmt:
 		return true
+	case *ast.BranchStmt:
+		return x.Tok == token.CONTINUE && x.Label == nil
 	case *ast.IfStmt:
 		if x.Else == nil {
 			return false
@@ -428,7 +430,7 @@ func (t *decTr) decE(stmts []ast.Stmt, effects []string, end string, srcs map[st
 		var exit *ast.IfStmt
 		exits := 0
 		for _, bs := range x.Body.List {
-			if is, ok := bs.(*ast.IfStmt); ok && is.Else == nil && is.Init == nil && endsInReturn(is.Body.List) {
+			if is, ok := bs.(*ast.IfStmt); ok && is.Else == nil && is.Init == nil && endsInReturn(is.Body.List) && hasReturn(is.Body.List) {
 				exit = is
 				exits++
 			} else if hasReturn([]ast.Stmt{bs}) {
@@ -480,6 +482,10 @@ func (t *decTr) decE(stmts []ast.Stmt, effects []string, end string, srcs map[st
 					}
 				}
 			}
+		}
+		if br, ok := stmts[0].(*ast.BranchStmt); ok && br.Tok == token.CONTINUE && br.Label == nil {
+			// the step for this element ends here
+			return leanStr(shortLabel(strings.Join(append(append([]string{}, effects...), "continue"), "; ")))
 		}
 		if es, ok := stmts[0].(*ast.ExprStmt); ok {
 			if c, ok := es.X.(*ast.CallExpr); ok && exprKey2(c.Fun) == "os.Exit" {
@@ -541,6 +547,10 @@ var decJobs = []decJob{
 	{"pkg/builder/assignment.go", "assignmentBuilder", "addressed", "addressed", "", false, ""},
 	{"pkg/builder/assignment.go", "assignmentBuilder", "isStructFieldAccessible", "isStructFieldAccessible", "", false, ""},
 	{"pkg/builder/assignment.go", "assignmentBuilder", "dispatch", "dispatch", "", false, ""},
+	{"pkg/parser/interface.go", "Parser", "findConvergenEntries", "entryStep", "", false, "%loop"},
+	{"pkg/parser/interface.go", "Parser", "findConvergenEntries", "findConvergenEntries", "", true, ""},
+	{"pkg/parser/method.go", "Parser", "parseMethods", "parseMethodsStep", "", false, "%loop"},
+	{"pkg/parser/method.go", "Parser", "parseMethods", "parseMethods", "", true, ""},
 	{"pkg/builder/assignment.go", "assignmentBuilder", "structFieldAndStructGettersAndFields", "candidateHandler", "", false, "=handler"},
 	{"pkg/builder/assignment.go", "assignmentBuilder", "structFieldAndStructGettersAndFields", "fieldDefault", "", false, ""},
 }
@@ -569,7 +579,7 @@ func genDecision(repo string, j decJob) string {
 	f := parse(repo, j.file)
 	fd := findFunc(f, j.recv, j.fn)
 	stmts := fd.Body.List
-	litNamed := false
+	litNamed, loopBody := false, false
 	if j.lit != "" {
 		stmts = nil
 		for _, st := range fd.Body.List {
@@ -583,7 +593,22 @@ func genDecision(repo string, j decJob) string {
 				}
 			}
 		}
-		if strings.HasPrefix(j.lit, "@") {
+		if j.lit == "%loop" {
+			// the body of the function's first loop, as the step it performs for one element: `continue` ends the step
+			for _, st := range fd.Body.List {
+				switch l := st.(type) {
+				case *ast.RangeStmt:
+					if stmts == nil {
+						stmts = l.Body.List
+					}
+				case *ast.ForStmt:
+					if stmts == nil {
+						stmts = l.Body.List
+					}
+				}
+			}
+			loopBody = true
+		} else if strings.HasPrefix(j.lit, "@") {
 			// the function literal handed to the call of that function
 			ast.Inspect(fd.Body, func(n ast.Node) bool {
 				c, ok := n.(*ast.CallExpr)
@@ -635,6 +660,9 @@ func genDecision(repo string, j decJob) string {
 	}
 	if litNamed && end == "" {
 		end = "return"
+	}
+	if loopBody {
+		end = "next"
 	}
 	longLabels, longLabelOrder = map[string]string{}, nil
 	t := &decTr{seen: map[string]bool{}, quiet: j.quiet, multi: multiAssigned(stmts)}
